@@ -89,7 +89,7 @@ FlushStart ==
        THEN \* toggle_alternating_files(write): flip first, then write the slot it selects now
             /\ toggle' = ~toggle
             /\ fl' = [pc |-> "create", w |-> Sel(~toggle), g |-> mem, i |-> 1]
-            /\ step' = IF toggle THEN "toggle-remove" ELSE "toggle-create"
+            /\ step' = IF toggle THEN "toggle-remove" ELSE "toggle-create"    \* = TogName(~toggle)
        ELSE /\ toggle' = toggle
             /\ fl' = [pc |-> "create", w |-> Other(Sel(toggle)), g |-> mem, i |-> 1]
             /\ step' = "pick-idle-slot"
@@ -169,17 +169,34 @@ LoadStore1 ==
   /\ step' = "read-store:" \o ld.s0
   /\ UNCHANGED <<toggle, slot, tmp, mem, gen, fl, completed, inprog, loaded, crashes>>
 
-\* fallback: the other slot; the pinned code flips the selector to get there
+TogName(t) == IF t THEN "toggle-create" ELSE "toggle-remove"    \* name of the step that makes toggle = t
+
+\* pinned code: file_paths(config, true) flips the selector to get at the other slot
+LoadFlip2 ==
+  /\ AsIs /\ ld.pc = "store2"
+  /\ toggle' = ~toggle
+  /\ ld' = [pc |-> "store2r", s0 |-> ld.s0]
+  /\ step' = TogName(~toggle)
+  /\ UNCHANGED <<slot, tmp, mem, gen, fl, completed, inprog, loaded, crashes>>
+
+\* fallback: try_load of the other slot
 LoadStore2 ==
-  /\ ld.pc = "store2"
-  /\ LET s1 == IF AsIs THEN Sel(~toggle) ELSE Other(ld.s0) IN
-     \* intended: the selector follows only a slot that actually loaded (that
-     \* commits the recovered snapshot: the next flush must not overwrite it)
-     /\ toggle' = IF AsIs THEN ~toggle ELSE IF StoreValid(s1) THEN (s1 = "a") ELSE toggle
+  /\ \/ AsIs /\ ld.pc = "store2r"
+     \/ ~AsIs /\ ld.pc = "store2"
+  /\ LET s1 == IF AsIs THEN Sel(toggle) ELSE Other(ld.s0) IN
      /\ IF StoreValid(s1)
-          THEN ld' = [pc |-> "gglw1", s0 |-> ld.s0, from |-> s1, st |-> slot[s1].store]
+          THEN ld' = [pc |-> IF AsIs THEN "gglw1" ELSE "commit2", s0 |-> ld.s0, from |-> s1, st |-> slot[s1].store]
           ELSE ld' = [pc |-> "v2"]
      /\ step' = "read-store:" \o s1
+  /\ UNCHANGED <<toggle, slot, tmp, mem, gen, fl, completed, inprog, loaded, crashes>>
+
+\* intended: the selector follows a slot that actually loaded (that commits the
+\* recovered snapshot: the next flush must not overwrite it)
+LoadCommit2 ==
+  /\ ld.pc = "commit2"
+  /\ toggle' = (ld.from = "a")
+  /\ ld' = [ld EXCEPT !.pc = "gglw1"]
+  /\ step' = TogName(ld.from = "a")
   /\ UNCHANGED <<slot, tmp, mem, gen, fl, completed, inprog, loaded, crashes>>
 
 \* registrations: pinned code reads the slot selected FIRST; intended: the store's slot
@@ -192,14 +209,21 @@ LoadGglw1 ==
      /\ step' = "read-gglw:" \o s
   /\ UNCHANGED <<toggle, slot, tmp, mem, gen, fl, completed, inprog, loaded, crashes>>
 
-\* pinned code only: second fallback, flips the selector once more
+\* pinned code only: second fallback, flips the selector once more ...
+LoadFlipG ==
+  /\ AsIs /\ ld.pc = "gglw2"
+  /\ toggle' = ~toggle
+  /\ ld' = [pc |-> "gglw2r", st |-> ld.st]
+  /\ step' = TogName(~toggle)
+  /\ UNCHANGED <<slot, tmp, mem, gen, fl, completed, inprog, loaded, crashes>>
+
+\* ... and reads the registrations of whatever slot is selected now
 LoadGglw2 ==
-  /\ ld.pc = "gglw2"
-  /\ LET s == Sel(~toggle) IN
-     /\ toggle' = ~toggle
+  /\ ld.pc = "gglw2r"
+  /\ LET s == Sel(toggle) IN
      /\ ld' = [pc |-> "done", st |-> ld.st, gg |-> IF GglwValid(s) THEN slot[s].gglw ELSE -1]
      /\ step' = "read-gglw:" \o s
-  /\ UNCHANGED <<slot, tmp, mem, gen, fl, completed, inprog, loaded, crashes>>
+  /\ UNCHANGED <<toggle, slot, tmp, mem, gen, fl, completed, inprog, loaded, crashes>>
 
 \* v3 failed: v2 looks for .store.{a,b}.json with the SAME .toggle and flips it on
 \* its own fallback (v2.rs:33); v1 finds nothing and starts empty
@@ -207,7 +231,7 @@ LoadV2 ==
   /\ ld.pc = "v2"
   /\ toggle' = ~toggle
   /\ ld' = [pc |-> "done", st |-> 0, gg |-> -1]
-  /\ step' = "v2-v1-empty"
+  /\ step' = TogName(~toggle)
   /\ UNCHANGED <<slot, tmp, mem, gen, fl, completed, inprog, loaded, crashes>>
 
 \* the server is up with the recovered state (a new in-memory generation)
@@ -224,7 +248,8 @@ LoadDone ==
 
 Next ==
   \/ Mutate \/ FlushStart \/ FlushCreate \/ FlushWrite \/ FlushRename \/ FlushCommit \/ FlushEnd
-  \/ Crash \/ Restart \/ LoadStore1 \/ LoadStore2 \/ LoadGglw1 \/ LoadGglw2 \/ LoadV2 \/ LoadDone
+  \/ Crash \/ Restart \/ LoadStore1 \/ LoadFlip2 \/ LoadStore2 \/ LoadCommit2 \/ LoadGglw1 \/ LoadFlipG
+  \/ LoadGglw2 \/ LoadV2 \/ LoadDone
 
 Spec == Init /\ [][Next]_vars
 
